@@ -512,6 +512,7 @@ func (s *UDPSessionRelay) relayServerConnToNatConnGeneric(ctx context.Context, u
 	)
 
 	for queuedPacket := range uplink.natConnSendCh {
+		verifhook.At("relay.uplink.beforePack", s, uplink.csid)
 		destAddrPort, packetStart, packetLength, err = uplink.natConnPacker.PackInPlace(ctx, queuedPacket.buf, queuedPacket.targetAddr, queuedPacket.start, queuedPacket.length)
 		if err != nil {
 			uplink.logger.Warn("Failed to pack packet",
